@@ -35,7 +35,7 @@ class Registry(dict):
     def add(self, q, case, c):
         c.qualname, c.case = q, case
         self.cases[(q, case)] = c
-        if case is None or getattr(c, 'callsite', False) or q not in self:
+        if case is None or getattr(c, 'callsite', False):
             self[q] = c
 
 
@@ -134,6 +134,9 @@ class Verifier:
             st.ghost[g] = None
         for g, init in (getattr(c, 'ghost', None) or {}).items():
             st.ghost[g] = ex.eval1(ast.parse(init, mode='eval').body, st)
+        gi = getattr(c, 'ghost_init', None)
+        if gi:
+            gi(ex, st)
         for r in getattr(c, 'requires', []):
             t = ex.spec(r, st)
             st.assume(z3.BoolVal(t) if isinstance(t, bool) else t)
@@ -162,6 +165,8 @@ class Verifier:
             for j, e in enumerate(getattr(c, 'ensures', [])):
                 ex.goal('%s/ensures#%d' % (name, j), s, ex.spec(e, s, {'result': val}), {'ensures': e})
         ex.feasible_paths = len(res)
+        # vacuity canary: `ensures False` must be refutable, i.e. some normal exit is reachable
+        ex.canary_refuted = any(oc in (Outcome.RET, Outcome.NEXT) and smt.feasible(s.pc) for s, oc, _v in res)
 
     def discharge(self, ex, oid, qualname, gen_s, only=None):
         groups = {}
@@ -197,8 +202,10 @@ class Verifier:
         self.stats['paths'] += ex.feasible_paths
         self.stats['goals'] += len(ex.goals)
         obls.append(Obl('%s/feasible-paths>0' % oid, qualname, kind='structural', backend='structural',
-                        status=DISCHARGED if ex.feasible_paths > 0 else UNDECIDED,
+                        status=DISCHARGED if ex.feasible_paths > 0 and getattr(ex, 'canary_refuted', True)
+                        else UNDECIDED,
                         detail={'feasible_paths': ex.feasible_paths, 'goals': len(ex.goals),
+                                'canary_ensures_False_refuted': getattr(ex, 'canary_refuted', None),
                                 'vc_generation_s': round(gen_s, 3)}))
         return obls
 
